@@ -864,7 +864,7 @@ func Pad(s: string, n: int) => string {
 }
 
 func writeEmbedProgram() (string, error) {
-	dir, err := os.MkdirTemp("", "verif-c27embed.")
+	dir, err := os.MkdirTemp(sim.ScratchParent(), "verif-c27embed.")
 	if err != nil {
 		return "", err
 	}
@@ -901,7 +901,7 @@ func main {
 }
 
 func writeFeatureProject() (string, error) {
-	dir, err := os.MkdirTemp("", "verif-c27proj.")
+	dir, err := os.MkdirTemp(sim.ScratchParent(), "verif-c27proj.")
 	if err != nil {
 		return "", err
 	}
